@@ -138,6 +138,54 @@ inductive Balanced : List Instr → Prop where
   | block (lim : Nat) (body rest : List Instr) :
       Balanced body → Balanced rest → Balanced (.limitBegin lim :: (body ++ .limitEnd :: rest))
 
+/-! ### calls that pass the io argument on — var.go `writeSaveExprDerivedVars` / `writeLoadExprDerivedVars`
+
+Around every call whose arguments include `args.src` / `args.dst` (a private helper, or the coroutine
+of an embedded decoder: `status =? this.flate.transform_io?(dst: args.dst, src: args.src, …)`) wuffs-c
+emits
+
+    if (a_src) { a_src->meta.ri = ((size_t)(iop_a_src - a_src->data.ptr)); }      // save
+    … the call, which receives the caller's `wuffs_base__io_buffer*` …
+    if (a_src) { iop_a_src = a_src->data.ptr + a_src->meta.ri; }                   // load
+
+(writer: `meta.wi`). Only `iop` is reloaded: `io0`, `io1`, `io2` keep the values of the function entry
+(or of the enclosing `io_limit` block). The callee is a parameter: any function from the buffer struct
+it is handed to the buffer struct it leaves. -/
+
+/-- The buffer struct the callee receives. -/
+def saveForCall (s : St) : Buf :=
+  if s.w then { s.b with wi := s.iop } else { s.b with ri := s.iop }
+
+/-- The caller's state after the callee returned the buffer struct as `b2`. -/
+def loadAfterCall (s : St) (b2 : Buf) : St :=
+  { s with b := b2, iop := if s.w then b2.wi else b2.ri }
+
+def execCall (s : St) (f : Buf → Buf) : St := loadAfterCall s (f (saveForCall s))
+
+/-- A body step: a built-in / `io_limit` boundary, or a call that passes the argument on. -/
+inductive Step where
+  | prim (i : Instr)
+  | call (f : Buf → Buf)
+
+def execStep (s : St) : Step → St
+  | .prim i => exec s i
+  | .call f => execCall s f
+
+def runS (s : St) (l : List Step) : St := l.foldl execStep s
+
+/-- A whole call whose body may call other functions with the same io argument. -/
+def callIOS (w : Bool) (b : Buf) (l : List Step) : Buf := finalSave (runS (load w b) l)
+
+/-- Step lists in which every `io_limit` block is complete. -/
+inductive BalancedS : List Step → Prop where
+  | nil : BalancedS []
+  | prim (i : Instr) (rest : List Step) (h1 : ∀ l, i ≠ .limitBegin l) (h2 : i ≠ .limitEnd) :
+      BalancedS rest → BalancedS (.prim i :: rest)
+  | call (f : Buf → Buf) (rest : List Step) : BalancedS rest → BalancedS (.call f :: rest)
+  | block (lim : Nat) (body rest : List Step) :
+      BalancedS body → BalancedS rest →
+      BalancedS (.prim (.limitBegin lim) :: (body ++ .prim .limitEnd :: rest))
+
 /-! ### `io_forget_history (io: w) { … }` — statement.go, writers only
 
 `data.ptr += wi; data.len -= wi; ri = wi = 0; pos += wi` while `io0 = io1 = iop`; afterwards the
